@@ -31,6 +31,9 @@ def _list(I, args, kw):
     v = args[0]
     if isinstance(v, SymList):
         return v.do_copy(I)
+    from .values import SymSet
+    if isinstance(v, SymSet):
+        return v.m_iter(I)
     if isinstance(v, Sym) and v.sort() == Val:
         h = I.ext.get("model.tolist")
         if h:
